@@ -122,7 +122,7 @@ class World:
         self.ex = ex; self.mk = Mk(db, CR); self.N = N
         self.ws = [ex.fresh(f'w{i}') for i in range(N)]
         for w in self.ws: ex.assume(z3.And(w.e >= 1, w.e < 2 ** 58))
-        self.sched, self.total = c02.mk_schedule(ex, self.mk, self.ws)
+        self.sched, self.total = c02.mk_schedule(ex, self.mk, self.ws, sym_leaders=True)
         self.g0 = z3.Int('g0'); self.e0 = ex.fresh('e0')
         f = (self.total.e - 1) / 5
         self.q = self.total.e - f
